@@ -10,6 +10,7 @@ require (
 	github.com/aperturerobotics/starpc v0.49.3
 	github.com/aperturerobotics/util v1.33.1
 	github.com/blang/semver/v4 v4.0.0
+	github.com/cloudflare/circl v1.6.3
 	github.com/klauspost/compress v1.18.5
 	github.com/mr-tron/base58 v1.3.0
 	github.com/quic-go/quic-go v0.59.0
@@ -24,7 +25,6 @@ require (
 	github.com/aperturerobotics/go-websocket v1.8.15-0.20260329113544-74dbfb8f11c6 // indirect
 	github.com/aperturerobotics/json-iterator-lite v1.0.1-0.20260223122953-12a7c334f634 // indirect
 	github.com/bwesterb/go-ristretto v1.2.3 // indirect
-	github.com/cloudflare/circl v1.6.3 // indirect
 	github.com/google/uuid v1.6.0 // indirect
 	github.com/ipfs/go-cid v0.0.7 // indirect
 	github.com/klauspost/cpuid/v2 v2.2.10 // indirect
